@@ -264,6 +264,52 @@ def rule_history(rep, tname, m):
            sample={"type": tname, "H": str(H)})
 
 
+def rule_alloc(rep, tname, m):
+    """The per-channel buffer is long enough for the history plus the largest load the API can request."""
+    import ineq
+    from C04 import getter_expr
+    from C05 import to_ctor
+    from common import const_types
+    facts = rep.ctx.facts
+    R = "R-C03-alloc"
+    cfn, cst, inits = ctor_state(facts, tname)
+    b = inits.get("buffer")
+    if not (b is not None and b.get("k") == "macro" and b.get("repeat") and b["repeat"][0].get("k") == "macro" and b["repeat"][0].get("repeat")):
+        rep.ob(R, tname, False, "buffer allocation is not vec![vec![_; len]; channels]", loc(cfn))
+        return
+    dim = b["repeat"][0]["repeat"][1]
+    info = RESAMPLERS[tname]
+    calg = Alg(TypeEnv(locals_={p["name"]: ("int" if p["ty"] == "usize" else p["ty"]) for p in cfn["params"] if p.get("name")}, consts=const_types(facts, info["mod"])),
+               consts=consts_for(facts, info["mod"]))
+    D = calg.conv(dim)
+    H = calg.conv(to_ctor(m["shift"]["hi"], inits)) - calg.conv(to_ctor(m["shift"]["A"], inits))
+    pn = [p["name"] for p in cfn["params"]]
+    f64s = [p["name"] for p in cfn["params"] if p["ty"] == "f64"]
+    usz = [p["name"] for p in cfn["params"] if p["ty"] == "usize"]
+    if info["fixed"] == "in":
+        need = calg.sym(usz[0])
+        what = "the largest chunk (set_chunk_size never exceeds the construction-time size)"
+    else:
+        fn, v = getter_expr(facts, tname, "input_frames_max")
+        need = calg.conv(to_ctor(v, inits))
+        what = "input_frames_max() = %s" % need
+    # len(interpolator): a positive multiple of 8 (asserted by every kernel constructor); integer halves are exact
+    Lf = [f for f in (D.atoms(sp.Function) | H.atoms(sp.Function) | need.atoms(sp.Function)) if f.func.__name__ == "len"]
+    Ls = sp.Symbol("L")
+    sub = {f: Ls for f in Lf}
+    from norm import idiv_f
+    def prep(e):
+        e = e.subs(sub)
+        return e.replace(idiv_f, lambda a, b_: a / b_ if a == Ls and b_ == 2 else (sp.Integer(int(a) // int(b_)) if a.is_number and b_.is_number else idiv_f(a, b_)))
+    D, H, need = prep(D), prep(H), prep(need)
+    lower = {Ls: 8, calg.sym(usz[0]): 1, calg.sym(f64s[0]): 0, calg.sym(f64s[1]): 1}
+    lower = {k: v for k, v in lower.items() if k in (D - H - need).free_symbols}
+    ok, resid = ineq.prove_ge(D, H + need, lower)
+    rep.ob(R, tname, ok,
+           "per-channel allocation %s must be ≥ history %s + %s; relaxed difference %s is %sshown non-negative for chunk ≥ 1, ratio > 0, max_relative ≥ 1, sinc_len ≥ 8"
+           % (D, H, what, resid, "" if ok else "NOT "), loc(cfn), sample={"type": tname, "alloc": str(D), "history": str(H), "need": str(need), "relaxed_difference": str(resid)})
+
+
 def rule_validate_exact(rep):
     """validate_buffers accepts buffers of exactly the advertised size (and larger): evaluated on order representatives."""
     facts = rep.ctx.facts
@@ -299,6 +345,7 @@ def run(rep):
             m = asyncmodel.extract(facts, t)
             rule_chan(rep, t, m)
             rule_outwrite(rep, t, m)
+            rule_alloc(rep, t, m)
             if RESAMPLERS[t]["fixed"] == "in":
                 rule_margin(rep, t, m)
                 rule_history(rep, t, m)
@@ -323,6 +370,7 @@ def run(rep):
     rep.floor("R-C03-outwrite", 18)
     rep.floor("R-C03-margin", 2 + 9 + 9)
     rep.floor("R-C03-history", 2)
+    rep.floor("R-C03-alloc", 4)
     rep.floor("R-C03-validate-exact", 2)
     rep.floor("R-C03-provision", 13)
     rep.floor("R-C03-kernel-bounds", 7)
@@ -332,6 +380,7 @@ def run(rep):
     rep.clause("R-C03-chan", "per-channel (unchecked) accesses are indexed by the enumerate index of channel_mask; buffer and mask have nbr_channels entries and are never resized")
     rep.clause("R-C03-outwrite", "fixed-output: the write index is the loop variable of 0..chunk_size and chunk_size is the validated output length; fixed-input: the write index is a 0-based counter incremented once per frame")
     rep.clause("R-C03-margin", "fixed-input: loop guard idx < end_idx with end_idx = chunk − K − ceil(max step) and K ≥ kernel right reach")
+    rep.clause("R-C03-alloc", "the per-channel buffer allocated by the constructor is at least history + the largest input the API can request (input_frames_max / construction-time chunk): inequality proved by relaxing ceil/floor soundly and checking coefficient signs")
     rep.clause("R-C03-history", "fixed-input: history in front of new data covers the frames a large-step call can leave unevaluated")
     rep.clause("R-C03-validate-exact", "validate_buffers accepts exactly-sized buffers")
     rep.clause("R-C03-provision", "fixed-output: requested input covers the closed-form read position (shared with C06)")
